@@ -46,6 +46,10 @@ CHECKS = {
    text="Drg.tla gives every boxed expression its meaning by translation to FEEL trees (context with/without result entry, invocation with named bindings evaluated in the invoking scope, relation, function definition, decision table) and defines the value of decisions, knowledge models (as function values whose environment holds the models they require) and decision services over the requirement graph. TLC enumerates every combination of boxed forms for two knowledge models (whose parameters are deliberately named like the input data, so a value tells which binding was used) and the decisions of a diamond-shaped graph; the harness writes each model as DMN XML, evaluates every invocable on every input context - and again with input entries outside the requirement closure - and TLC compares with ValueOf.",
    note="A fixed graph shape with varied logic forms (72 models), not all graphs. Boxed lists and decision-level function definitions are not accepted by this implementation and not generated; decision services used as knowledge and input decisions are Unspec. Trusts TLC, Drg.tla, the XML writer.",
    technique="TLA+ specification of requirement-graph evaluation as oracle; models enumerated by TLC and evaluated by the real model evaluator through DMN XML"),
+ "C11": dict(cat="exploration", design="DESIGN.md §5 C11",
+   text="ItemDef.tla defines what an input of a declared type admits (value itself / null / component-wise null) and, through FeelType!Coerce, what a decision with a declared output type returns. TLC enumerates item definition trees to depth 3 (eight simple types with and without allowed values, referenced, component, collection-of) and derives from each tree a conforming value and a violation at every position, plus a pool with one value of every FEEL kind; the harness writes the item definitions, a typed input with an echo decision and typed-output decisions as DMN XML, evaluates them, and TLC compares.",
+   note="Missing/extra components, allowed values placed directly on a collection, and partially conforming collections (null element vs null list) are Unspec/alternatives. Trusts TLC, ItemDef.tla, the XML writer.",
+   technique="TLA+ specification of type admission/coercion as oracle; type trees and per-position violations enumerated by TLC; evaluated by the real model evaluator through DMN XML"),
 }
 NOT_YET = {}
 props = [json.loads(l) for l in open('/verif/properties.jsonl')]
